@@ -1,7 +1,7 @@
 """C01 (and C03 via main(..., prop='C03')): outcome of a dead worker for every landing point.
-T-S: Gen/Skel.v regenerated from thread.py / process.py / persistent_*.py;
+T-S: Gen/Skel.v regenerated from thread.py / process.py / remote.py / persistent_*.py;
 T-B: line-level injection into the REAL child run loops - thread kinds in-process through
-sys.settrace, process kinds in spawned interpreters through harness/inject/sitecustomize.py -
+sys.settrace, process kinds and the backends of remote kinds in spawned interpreters through harness/inject/sitecustomize.py -
 compared with Child/Sem.v on the same (kind, target behaviour, landing points)."""
 import concurrent.futures
 import logging
@@ -15,7 +15,7 @@ from harness import core
 
 PROP = 'C01'
 UNITS = ['Skel']
-PROOFS = ['theories/Child/Proofs.v']
+PROOFS = ['theories/Child/Proofs.v', 'theories/Child/ProofsRemote.v']
 HEADER = 'From PW Require Import Child.Sem Gen.Skel Child.Runs Child.Run.\n'
 
 TARGETS = ['TReturn', 'TRaise', 'TRaiseBase', 'TLoop']
@@ -270,6 +270,49 @@ def run_process(persistent, tgt, plan, rebuild=True, log=None):
             pass
 
 
+def run_remote(persistent, tgt, plan, rebuild, addr, log=None):
+    """one remote worker on the server at [addr]; the plan travels in the worker's name to the backend process the
+    server spawns (which loads the tracer through sitecustomize, like every spawned interpreter of this check)"""
+    from pyworkers.remote import RemoteWorker
+    from pyworkers.persistent_remote import PersistentRemoteWorker
+    name = 'inj|' + '|'.join(f'{o}:{a}' for o, a in plan) + (f'|log={log}' if log else '')
+    f = FUNCS[tgt]
+    if tgt == 'TRaise' and not rebuild:
+        f = t_raise_unrebuildable
+    try:
+        if persistent:
+            w = PersistentRemoteWorker(p_target if tgt in ('TReturn', 'TLoop') else raiser_for(tgt, rebuild), name=name, host=addr)
+        else:
+            w = RemoteWorker(f, name=name, host=addr)
+    except BaseException as e:   # noqa
+        return 'CtorRaised', type(e).__name__
+    try:
+        if persistent and tgt in ('TRaise', 'TRaiseBase'):
+            try:
+                w.enqueue(1)
+            except Exception:
+                pass
+        if persistent and tgt == 'TReturn':
+            w.close()
+        w._child.join(3.0 if tgt == 'TLoop' else 25)        # the frontend thread ends when the data connection does
+        if w._child.is_alive():
+            return 'OAlive', None
+        # the end of the data connection is not yet the death of the worker (the backend process may still be on its
+        # way out): the worker counts as dead once is_alive() says so
+        t0 = time.time()
+        while w.is_alive() and time.time() - t0 < 15:
+            time.sleep(0.01)
+        if w.is_alive():
+            return 'OAlive', None
+        return classify(w)
+    finally:
+        try:
+            if w._child.is_alive():
+                w.terminate(timeout=2, force=True)
+        except Exception:
+            pass
+
+
 def raise_own(x):
     raise Own('own')
 
@@ -296,10 +339,12 @@ def model_steps(events, call_line_returned):
 
 
 def coq_case(kind, persistent, tgt, rebuild, plan_model, ob):
-    K = 'KThread' if kind == 'thread' else 'KProcess'
+    K = {'thread': 'KThread', 'process': 'KProcess', 'remote': 'KRemote'}[kind]
     b = lambda x: 'true' if x else 'false'   # noqa: E731
     pl = '[' + '; '.join(f'({p}, {a})' for p, a in plan_model) + ']'
-    return f'check_obs {K} {b(persistent)} {tgt} {b(rebuild)} {pl} ({ob})'
+    # remote kind: landing points are given relative to the boundary right after the child announced itself
+    fn = 'check_obs_rel' if kind == 'remote' else 'check_obs'
+    return f'{fn} {K} {b(persistent)} {tgt} {b(rebuild)} {pl} ({ob})'
 
 
 def handler_lines():
@@ -333,7 +378,8 @@ def line_labels():
     from pyworkers.thread import ThreadWorker
     from pyworkers.process import ProcessWorker
     out = {}
-    for name, fn in (('thread_run', ThreadWorker._run), ('process_run', ProcessWorker._run)):
+    from pyworkers.remote import RemoteWorker
+    for name, fn in (('thread_run', ThreadWorker._run), ('process_run', ProcessWorker._run), ('remote_backend', RemoteWorker._run_backend)):
         src, first = inspect.getsourcelines(fn)
         lines = {}
         for i, text in enumerate(src):
@@ -341,15 +387,61 @@ def line_labels():
             lab = 'Nop'
             if '_startup_sync.set()' in t and 'StartupDone' not in lines.values():
                 lab = 'StartupDone'
-            elif re.search(r'child_end\.put\(\(self\._pid', t):
+            elif re.search(r'child_end\.(put|send)\(\(self\.(_pid|_host)', t):
                 lab = 'SendInfo'
-            elif 'child_end.put(' in t or 'child_end.send(' in t:
+            elif 'child_end.put(' in t or 'child_end.send(' in t or t.startswith('send_msg(self._socket'):
                 lab = 'SendRes'
             elif 'self.do_work()' in t:
                 lab = 'CallTarget+SetResOk' if t.startswith('self._result') else 'CallTarget'
             lines[first + i] = lab
         out[name] = ('', lines, '', first)
     return out
+
+
+def remote_sweep(res, tier, single, sk, scratch, record, events_of):
+    from pyworkers.remote_server import spawn_server
+    servers = [spawn_server(('127.0.0.1', 0)) for _ in range(3)]     # spawned AFTER spawn_env(): their children load the tracer
+    try:
+        lines = sk['remote_backend'][1]
+        info_lines = {ln for ln, lab in lines.items() if lab == 'SendInfo'}
+        jobs = []
+        for pers in (False, True):
+            for tgt in (['TReturn', 'TRaise', 'TLoop'] if tier == 'quick' else TARGETS):
+                log = os.path.join(scratch, f'rdry_{pers}_{tgt}.log')
+                ob0, why0 = run_remote(pers, tgt, [], True, servers[0].addr, log=log)
+                ev0 = [(l.split()[1], int(l.split()[2])) for l in open(log)] if os.path.exists(log) else []
+                events_of[('remote', pers, tgt)] = ev0
+                record('remote', pers, tgt, True, [], [], ob0, why0)
+                start = next((i + 1 for i, (fn, ln) in enumerate(ev0) if fn == '_run_backend' and ln in info_lines), None)
+                if start is None:
+                    res.tie('correspondence:remote-trace', f'no line event of the backend on the statement that reports the runtime info (target {tgt}, persistent {pers}): {ev0[-5:]}')
+                    continue
+                points = list(range(start, len(ev0) + 1))
+                if tier == 'quick' and (pers or tgt == 'TLoop'):
+                    points = points[::3]
+                acts = ['ATerm'] if single else ['AWTE', 'AKill', 'AKillMidSend']
+                for p in points:
+                    for a in acts:
+                        if a == 'AKillMidSend' and not (p < len(ev0) and ('Send' in lines.get(ev0[p][1], '') or ev0[p][0] == '_cleanup')):
+                            continue
+                        jobs.append((pers, tgt, True, [(p, a)], start))
+                if not single and tgt == 'TRaise':
+                    jobs.append((pers, tgt, False, [], start))
+                    if tier == 'quick':
+                        jobs.append((pers, 'TRaiseBase', True, [], start))      # a target ending with a BaseException (corpus: fixed defect)
+        with concurrent.futures.ThreadPoolExecutor(max_workers=9) as ex:
+            futs = [(j, ex.submit(run_remote, j[0], j[1], j[3], j[2], servers[i % len(servers)].addr)) for i, j in enumerate(jobs)]
+            for i, ((pers, tgt, rb, plan, start), fu) in enumerate(futs):
+                ob, why = fu.result()
+                if ob == 'OAlive' and tgt != 'TLoop':
+                    ob, why = run_remote(pers, tgt, plan, rb, servers[i % len(servers)].addr)
+                record('remote', pers, tgt, rb, plan, [(o - start, a) for o, a in plan], ob, why)
+    finally:
+        for sv in servers:
+            try:
+                sv.terminate(timeout=2, force=True)
+            except Exception:
+                pass
 
 
 def main(tier, seed, replay=None, prop=PROP):
@@ -367,7 +459,7 @@ def main(tier, seed, replay=None, prop=PROP):
     res.assumptions = ['an asynchronous exception is raised at a statement (line) boundary of the target thread, or inside an interruptible target (CPython PyThreadState_SetAsyncExc)',
                        'a pipe delivers whole messages in order; a writer killed part-way leaves at most one truncated trailing message; EOF after the writer is gone',
                        'line-level landing points, one per run (sys.settrace stops tracing after the first raise); pairs of landing points and opcode-level points inside one statement exist in the theorems only',
-                       'remote kinds are not driven by this check (their decoding fix is exercised by C02)']
+                       'remote kinds: the backend process spawned by a real server on loopback is traced like a process child; the server process itself and TCP are not modelled']
     res.trusted.append('hand-written semantics Child/Sem.v for the generated skeletons; harness/inject/sitecustomize.py')
     core.prove(res, prop, UNITS, PROOFS, run_files=['theories/Child/Run.v'])
     gen_ok = not any(w.startswith('translator:') for w, _ in res.tie_broken)
@@ -466,6 +558,8 @@ def main(tier, seed, replay=None, prop=PROP):
                 # finalisation with a daemon thread), twice is a finding
                 ob, why = run_process(pers, tgt, plan, rb)
             record('process', pers, tgt, rb, plan, to_model(plan, ev0, tgt, call_lines_proc), ob, why)
+    # ---- remote kinds: the backend process the server spawns runs RemoteWorker._run_backend under the same tracer
+    remote_sweep(res, tier, single, sk, scratch, record, events_of)
     import shutil
     shutil.rmtree(scratch, ignore_errors=True)
     if single:
